@@ -1,13 +1,13 @@
 (** Monitors: each property as a decidable predicate on ONE observation of the implementation
     (payload + result + trace). They do not use the interpreter model. *)
-From Deserr Require Import Base Pointer Kinds Value Prog Scalars Types Deser Derive Monitors.
+From Deserr Require Import Base Pointer Kinds Value Prog Scalars Types Deser Derive Monitors C04Defs.
 From Deserr.checks Require Import KDeser.
 
 Definition mon_c01 (c : dcase) : bool := c01_ok (dc_res c) (dc_trace c).
 
 Definition c04_applicable (c : dcase) : bool :=
   nodup_keys (dc_val c)
-  && match dc_ty c with Accept t => tag_clash_free t | _ => false end.
+  && match dc_ty c with Accept t => c04_wf t | _ => false end.
 
 Definition mon_c04 (c : dcase) : bool :=
   negb (c04_applicable c) || forallb (call_true (dc_val c) (dc_trace c)) (dc_trace c).
